@@ -298,6 +298,115 @@ def run_generated(ctx, batch):
             ctx.sample({"sdl": first_text[:1500], "definitions": len(items)})
 
 
+# ---------------------------------------------------------------------------
+# extend_schema(base, doc): a document that DEFINES new types / directives and EXTENDS old and new ones
+# ---------------------------------------------------------------------------
+
+def real_extend(base_text, ext_text, strict):
+    from py_gql import build_schema
+    from py_gql.sdl import extend_schema
+    try:
+        base = build_schema(base_text)
+    except Exception as e:  # noqa
+        return ("base", type(e).__name__)
+    try:
+        s = extend_schema(base, ext_text, strict=strict)
+        return ("ok", dump_schema(s, sort=True))
+    except _classes() as e:
+        return ("rej", _coarse(e), type(e).__name__)
+    except RecursionError:
+        return ("exc", "internal:RecursionError")
+    except Exception as e:  # noqa
+        return ("exc", "internal:" + type(e).__name__)
+
+
+def extension_doc(rng, D):
+    """(items of a document B for `extend_schema(build(A), B)`, declared content of A followed by B).
+    B defines new types and a new directive and extends both the NEW types and types of A."""
+    import copy
+    D2 = copy.deepcopy(D)
+    int_ty, q = {"k": "named", "n": "Int"}, D["query"]
+
+    def tdef(kind, name, **kw):
+        d = {"k": "type", "kind": kind, "name": name, "desc": kw.pop("desc", None), "interfaces": [], "fields": [], "members": [], "values": [],
+             "input_fields": [], "dirs": []}
+        d.update(kw)
+        return d
+
+    def fld(name, ty, args=()):
+        return {"name": name, "desc": None, "args": list(args), "type": ty, "dirs": []}
+
+    def iv(name, ty):
+        return {"name": name, "desc": None, "type": ty, "default": None, "dirs": []}
+
+    def named(n):
+        return {"k": "named", "n": n}
+    B = [
+        tdef("enum", "NewE", values=[{"name": "N0", "desc": None, "dirs": []}], desc="new enum"),
+        dict(tdef("enum", "NewE", values=[{"name": "N1", "desc": None, "dirs": []}]), k="ext"),
+        tdef("input", "NewI", input_fields=[iv("x", int_ty)]),
+        dict(tdef("input", "NewI", input_fields=[iv("e", named("NewE")), iv("self", named("NewI"))]), k="ext"),
+        tdef("object", "NewT", fields=[fld("a", int_ty)]),
+        dict(tdef("object", "NewT", fields=[fld("b", {"k": "list", "t": named("NewT")}), fld("q", named(q))]), k="ext"),
+        dict(tdef("object", "NewT", fields=[fld("c", named("NewE"), [iv("i", named("NewI"))])]), k="ext"),
+        tdef("union", "NewU", members=["NewT"]),
+        dict(tdef("union", "NewU", members=[q]), k="ext"),
+        {"k": "directive", "name": "newd", "desc": None, "args": [iv("a", named("NewE"))], "locations": ["FIELD"]},
+        dict(tdef("object", q, fields=[fld("nt", named("NewT")), fld("nu", named("NewU"), [iv("i", named("NewI"))])]), k="ext"),
+    ]
+    if rng.random() < 0.5:
+        B.append(dict(tdef("object", q, fields=[fld("ne", {"k": "nonNull", "t": named("NewE")})]), k="ext"))
+    B = sdl.permute(rng, B)
+    both = sdl.declared(sdl.items_of_content(D) + B)
+    return B, both
+
+
+def run_extend(ctx, batch):
+    n = ctx.n(40, 300)
+    for k in range(n):
+        if ctx.time_left() < 14:
+            ctx.notes.append("extend_schema cases cut short at %d" % k)
+            break
+        D, items = sdl.gen_doc(ctx.rng, size=ctx.rng.choice([1, 2]), p_ext=ctx.rng.choice([0.0, 0.4]))
+        a_text = sdl.render(sdl.permute(ctx.rng, items))
+        B, both = extension_doc(ctx.rng, D)
+        try:
+            expected = sdl.expected_dump(both)
+        except sdl.Invalid:
+            continue
+        outcomes = set()
+        for trial in range(ctx.n(3, 5)):
+            order = sdl.permute(ctx.rng, B)
+            if trial == 0:
+                # every extension block BEFORE the definition it extends
+                order = [i for i in order if i["k"] == "ext"] + [i for i in order if i["k"] != "ext"]
+            b_text = sdl.render(order)
+            strict = bool(ctx.rng.random() < 0.5)
+            real = real_extend(a_text, b_text, strict)
+            ctx.count()
+            ctx.nontrivial(("extend", a_text, b_text))
+            first_ext = next((j for j, i in enumerate(order) if i["k"] == "ext" and i["name"].startswith("New")), 99)
+            first_def = next((j for j, i in enumerate(order) if i["k"] == "type" and i["name"].startswith("New")), 99)
+            ctx.stat("extend_schema:%s:%s" % ("extension-first" if first_ext < first_def else "definition-first", real[0]))
+            detail = {"base_sdl": a_text, "ext_sdl": b_text, "strict": strict, "expected": expected}
+            if real[0] == "base":
+                break
+            if real[0] == "ok":
+                batch.add(a_text + "\n" + b_text, sdl.items_of_content(D) + order, real, {})
+                if canon(real[1]) != canon(expected):
+                    pth = diff_path(expected, real[1])
+                    ctx.fail("extend-schema:content-mismatch:" + pth, "extend_schema(build(A), B) differs from the content declared by A and B at " + pth,
+                             dict(detail, got=real[1]))
+            elif real[0] == "rej":
+                ctx.fail("extend-schema:valid-rejected:%s:%s" % (real[2], "extension-first" if first_ext < first_def else "any-order"),
+                         "a valid extension document is rejected with " + real[2], detail)
+            else:
+                ctx.fail("extend-schema:%s" % real[1], "extend_schema raises " + real[1], detail)
+            outcomes.add(canon(real[1]) if real[0] == "ok" else str(real))
+        if len(outcomes) > 1:
+            ctx.stat("extend_schema:order-dependent")
+
+
 def run_invalid(ctx, batch):
     n = ctx.n(6, 30)
     for label in sdl.INVALID_LABELS:
@@ -442,6 +551,7 @@ def run(ctx):
     batch = Batch()
     run_corpus(ctx, batch)
     run_generated(ctx, batch)
+    run_extend(ctx, batch)
     run_invalid(ctx, batch)
     run_model(ctx, batch)
     ctx.extra["documents_sent_to_model"] = len(batch.cases)
@@ -449,6 +559,9 @@ def run(ctx):
 
 def replay(ctx, data):
     inp = data.get("input", {})
+    if "base_sdl" in inp:
+        real = real_extend(inp["base_sdl"], inp["ext_sdl"], inp.get("strict", True))
+        return real[0] == "ok" and canon(real[1]) == canon(inp["expected"])
     text = inp.get("sdl")
     if text is None:
         return True
